@@ -51,7 +51,7 @@ impl<'a> Run<'a> {
         if case.prop != self.cfg.focus {
             return;
         }
-        let ev = eval(self.cat, &case, None, &[]);
+        let ev = eval(self.cat, &case);
         self.stats.cases += 1;
         self.stats.ticks += ev.meter.ticks;
         self.stats.count(&format!("outcome.{}", ev.outcome));
@@ -91,7 +91,7 @@ impl<'a> Run<'a> {
 }
 
 fn pick_entries<'a>(cat: &'a Catalog, rng: &mut Rng, n: usize) -> Vec<usize> {
-    (0..n).map(|_| rng.usize_below(cat.entries.len())).collect()
+    (0..n).map(|_| rng.usize_below(cat.builtins)).collect()
 }
 
 fn encode(e: &Entry, v: &Val) -> Option<Vec<u8>> {
@@ -263,7 +263,7 @@ pub fn run(cat: &Catalog, cfg: &Config, stats: &mut Stats, run_seed: u64) -> Vec
             None => {
                 let mut c = Case::new("C07", "self-delimiting", e.name, input.clone());
                 c.enc_len = r.bytes.len();
-                c.expected = Some(r.val.clone());
+                c.expected = Some(format!("{:?}", r.val));
                 c.fault = format!("intact record #{i} followed by {} bytes", input.len() - r.bytes.len());
                 c.fault_kind = if has_suffix { "suffix".into() } else { "none".into() };
                 run.submit(c, has_suffix);
@@ -330,7 +330,7 @@ pub fn run(cat: &Catalog, cfg: &Config, stats: &mut Stats, run_seed: u64) -> Vec
                     c.enc_len = enc_len;
                     c.batch = records[start..end]
                         .iter()
-                        .map(|r| (cat.entries[r.entry].name.to_string(), r.val.clone()))
+                        .map(|r| (cat.entries[r.entry].name.to_string(), format!("ok:{:?}", r.val)))
                         .collect();
                     c.fault = format!("records #{start}..#{end} written into one stream and read through one context");
                     c.fault_kind = "suffix".into();
